@@ -28,7 +28,7 @@ RHS = ['h', 'h[0]', '[h, h]', '{"k": h}', 'y', '[1, [2]]', 'enumerate(h)', 'item
        'filter(h, v => True)', 'h if True else 0', 'get(d, "k")', 'pop(h)', '(v => v)(h)', 'z', 'he', 'hd', 'd["e"]', '[he]', 't + t',
        'h or []', 'True and h', '(h or []) if True else None', 'he or h', 'None or d', 'deepn', 'deepn[0][0]', '[deepn]', 'not he and h']
 RHS_SMALL = ['h', 'h[0]', '[h, h]', '{"k": h}', 'y', 'enumerate(h)', 'items(d)', 't', 'x[0]', 'get(d, "k")', 'z', 'he', 'hd', 'h or []',
-             'True and h', 'deepn']
+             'True and h', 'deepn', 'x', '[x]', '{"p": z}']
 
 
 DEEPX = 1500        # nesting depth of the host list `deepx`: copying it exhausts the interpreter's recursion limit (2500 here)
@@ -262,6 +262,18 @@ def _make_wrapper(orig, fname):
         reach(container, after, keep2)
         new = after - cont_before
         shared = new & before
+        # c[k] = c / [c] / {"p": c}: what is stored must be a copy, not the container itself
+        try:
+            stored = container[args[0]] if _fname == '__setitem__' else None
+        except Exception:  # noqa
+            stored = None
+        if isinstance(stored, (list, dict)):
+            inside = set()
+            reach(stored, inside, keep2)
+            if id(container) in inside:
+                w.res.violation('alias:index-assign:self', 'after c[k] = e the stored value contains the container c itself',
+                                {'history': w.history, 'mode': w.mode, 'statement': 'index-assign',
+                                 'expected': 'an independent copy', 'observed': 'the container is reachable from its own element'})
         w.res.count('assignment_nodes_checked')
         if shared:
             form = 'index-assign' if _fname == '__setitem__' else 'index-compound' + str(args[1])
